@@ -87,3 +87,122 @@ theorem isort_sorted (p : Nat → Int) : ∀ l, (isort p l).Pairwise (fun a b =>
 
 end Sorter
 end Pytask
+
+namespace Pytask
+namespace Sorter
+
+/-- The invariant behind C01 at scheduler level. -/
+structure Inv (E : List (Nat × Nat)) (s : Sorter) (h : List Nat) : Prop where
+  edges : ∀ a x, (a, x) ∈ E → x ∈ s.nodes → (a, x) ∈ s.edges ∨ a ∈ s.done
+  disj : ∀ x, x ∈ s.nodes → x ∉ s.done
+  handed : ∀ x, x ∈ h → x ∈ s.processing ∨ x ∈ s.done
+  hnodup : h.Nodup
+
+theorem mem_finish_nodes {s : Sorter} {xs : List Nat} {x : Nat} :
+    x ∈ (s.finish xs).nodes ↔ x ∈ s.nodes ∧ x ∉ xs := by
+  simp [finish]
+
+theorem inv_take {E s h} (n : Nat) (b : List Nat) (hi : Inv E s h) (hb : LegalBatch s n b) :
+    Inv E (s.take b) (h ++ b) := by
+  obtain ⟨hnd, hsub, _, _, _⟩ := hb
+  refine ⟨hi.edges, hi.disj, ?_, ?_⟩
+  · intro x hx
+    rcases List.mem_append.1 hx with hx | hx
+    · rcases hi.handed x hx with hp | hd
+      · exact Or.inl (List.mem_append.2 (Or.inl hp))
+      · exact Or.inr hd
+    · exact Or.inl (List.mem_append.2 (Or.inr hx))
+  · refine List.nodup_append.2 ⟨hi.hnodup, hnd, ?_⟩
+    intro x hx y hy hxy
+    subst hxy
+    have hav := mem_avail.1 (hsub x hy)
+    rcases hi.handed x hx with hp | hd
+    · exact hav.2.2 hp
+    · exact hi.disj x hav.1 hd
+
+theorem inv_finish {E s h} (xs : List Nat) (hi : Inv E s h) : Inv E (s.finish xs) h := by
+  refine ⟨?_, ?_, ?_, hi.hnodup⟩
+  · intro a x hE hx
+    have hx' := mem_finish_nodes.1 hx
+    by_cases ha : a ∈ xs
+    · exact Or.inr (by simp [finish, ha])
+    · rcases hi.edges a x hE hx'.1 with he | hd
+      · left; simp [finish, he, ha, hx'.2]
+      · right; simp [finish, hd]
+  · intro x hx hd
+    have hx' := mem_finish_nodes.1 hx
+    simp only [finish, List.mem_append] at hd
+    rcases hd with hd | hd
+    · exact hi.disj x hx'.1 hd
+    · exact hx'.2 hd
+  · intro x hx
+    rcases hi.handed x hx with hp | hd
+    · by_cases hxs : x ∈ xs
+      · right; simp [finish, hxs]
+      · left; simp [finish, hp, hxs]
+    · right; simp [finish, hd]
+
+theorem fromDag_init {full : G} {isTask : Nat → Bool} {prio : Nat → Int} {f : Sorter}
+    (h : fromDag full isTask prio = .ok f) : f.done = [] ∧ f.processing = [] := by
+  unfold fromDag at h
+  split at h
+  · cases h
+  · cases h; exact ⟨rfl, rfl⟩
+
+theorem inv_recreate {E s h} (full : G) (isTask : Nat → Bool) (prio : Nat → Int) (f s' : Sorter)
+    (hi : Inv E s h) (hf : fromDag full isTask prio = .ok f)
+    (hs : fromDagAndSorter full isTask prio s = .ok s') : Inv f.edges s' h := by
+  unfold fromDagAndSorter at hs
+  rw [hf] at hs
+  simp only [Except.ok.injEq] at hs
+  subst hs
+  obtain ⟨hfd, _⟩ := fromDag_init hf
+  refine ⟨?_, ?_, ?_, hi.hnodup⟩
+  · intro a x hE hx
+    have hx' : x ∈ f.nodes ∧ x ∉ s.done := by simpa [finish] using hx
+    by_cases ha : a ∈ s.done
+    · right; simp [finish, ha]
+    · left; simp [finish, hE, ha, hx'.2]
+  · intro x hx hd
+    have hx' : x ∈ f.nodes ∧ x ∉ s.done := by simpa [finish] using hx
+    have : x ∈ s.done := by simpa [finish, hfd] using hd
+    exact hx'.2 this
+  · intro x hx
+    rcases hi.handed x hx with hp | hd
+    · left; exact hp
+    · right; simp [finish, hd]
+
+theorem reach_inv {E s h} (hr : Reach E s h) : Inv E s h := by
+  induction hr with
+  | init s hd hp =>
+    refine ⟨fun a x he _ => Or.inl he, ?_, ?_, List.nodup_nil⟩
+    · intro x _ hx; rw [hd] at hx; cases hx
+    · intro x hx; cases hx
+  | ready n b _ hb ih => exact inv_take n b ih hb
+  | done xs _ ih => exact inv_finish xs ih
+  | recreate full isTask prio f s' _ hf hs ih => exact inv_recreate full isTask prio f s' ih hf hs
+
+/-- Edges of the reduced task graph built by `from_dag`: exactly (task-ancestor, task) pairs. -/
+theorem fromDag_edges {full : G} {isTask : Nat → Bool} {prio : Nat → Int} {f : Sorter}
+    (h : fromDag full isTask prio = .ok f) (a t : Nat) :
+    (a, t) ∈ f.edges ↔ t ∈ full.nodes ∧ isTask t = true ∧ a ∈ full.anc t ∧ isTask a = true := by
+  unfold fromDag at h
+  split at h
+  · cases h
+  · cases h
+    simp only [List.mem_flatMap, List.mem_filter, List.mem_map, Prod.mk.injEq]
+    constructor
+    · rintro ⟨t', ⟨ht1, ht2⟩, a', ⟨ha1, ha2⟩, rfl, rfl⟩
+      exact ⟨ht1, ht2, ha1, ha2⟩
+    · rintro ⟨h1, h2, h3, h4⟩
+      exact ⟨t, ⟨h1, h2⟩, a, ⟨h3, h4⟩, rfl, rfl⟩
+
+theorem fromDag_nodes {full : G} {isTask : Nat → Bool} {prio : Nat → Int} {f : Sorter}
+    (h : fromDag full isTask prio = .ok f) : f.nodes = full.nodes.filter isTask := by
+  unfold fromDag at h
+  split at h
+  · cases h
+  · cases h; rfl
+
+end Sorter
+end Pytask
